@@ -1209,6 +1209,34 @@ def r917(ctx):
         ctx.bad(rid, ratios[0], f"the acceptance ratio `{short(ratios[0].value, 60)}` is not (weights after the exchange) / (weights before the exchange)", construct="high_acc_swap: acceptance ratio")
 
 
+ENGBASE_REL9 = "infretis/classes/engines/enginebase.py"
+
+def r919(ctx):
+    """The progress coordinate is component 0 of the order parameter; the other components are
+    collective variables that are only recorded. Every decision of the path classifiers and of
+    the stop rule reads `.order[0]`: in Path.get_start_point / get_end_point / check_interfaces
+    and EngineBase.add_to_path no `.order[k]` with another constant index (or a slice) is compared
+    with an interface."""
+    rid = "R-9.19"
+    tree = ctx.tree
+    targets = [(PATH, "Path.get_start_point"), (PATH, "Path.get_end_point"), (PATH, "Path.check_interfaces"), (ENGBASE_REL9, "EngineBase.add_to_path")]
+    n = 0
+    for rel, q in targets:
+        f = tree.func(rel, q)
+        subs = [x for x in walk_local(f) if isinstance(x, ast.Subscript) and isinstance(x.value, ast.Attribute) and x.value.attr in ("order", "ordermin", "ordermax")]
+        if not subs and q != "Path.check_interfaces":
+            raise AnalysisError(f"R-9.19: {q} does not read a frame's order parameter (cannot decide)")
+        for x in subs:
+            n += 1
+            k = x.slice
+            if isinstance(k, ast.Constant) and k.value == 0:
+                ctx.ok(rid, x, f"{q}: `{short(x, 40)}` reads the progress coordinate")
+            else:
+                ctx.bad(rid, x, f"{q} decides on `{short(x, 40)}` - not component 0 of the order parameter: with an order parameter that returns [progress coordinate, cv, ...] the path end / start is classified by a collective variable, e.g. a backward half that ended at the right interface is read as 'L' and a path that starts on the wrong side is accepted into the ensemble", construct=f"{q}: {short(x, 40)}")
+    if n < 4:
+        raise AnalysisError(f"R-9.19: only {n} reads of the order parameter found in the classifiers")
+
+
 def run(ctx):
     ctx.rule("R-9.6", "a wire-fencing extension whose success flag is discarded is covered by a length test that rejects every truncated extension (linear arithmetic on lengths)", floor=1)
     ctx.rule("R-9.7", "positional role agreement in the move functions: (start, end, middle, cross), (success, status), (shooting_point, idx, dek), (n_frames, new_segment), (accept, paths, status) are unpacked / passed at the callee's positions", floor=20)
@@ -1229,6 +1257,8 @@ def run(ctx):
     ctx.attempt(r94, ctx)
     ctx.rule("R-9.17", "high-acceptance swap: each weight uses the interfaces and the move of one ensemble; ratio = exchanged / current", floor=5)
     ctx.attempt(r917, ctx)
+    ctx.rule("R-9.19", "path classifiers and the stop rule decide on component 0 of the order parameter only", floor=4)
+    ctx.attempt(r919, ctx)
     ctx.rule("R-9.18", "an accepted path is weighted with the ensemble's own settings: calc_cv_vector receives interfaces, moves, lambda_minus_one and cap from the configuration, unmodified, at run_md as at load_paths (shared with C06 R-6.8)", floor=4)
     from .shared import callsite_config_agreement
     ctx.attempt(callsite_config_agreement, ctx, "R-9.18", "calc_cv_vector", ["interfaces", "moves", "lambda_minus_one", "cap"], " (an accepted path gets weight 0 in its own ensemble: ACC is reported for a path the scheduler cannot insert)")
@@ -1258,6 +1288,7 @@ def run(ctx):
 
 
 VARIANTS = [
+    B("c09-end-point-from-last-order-component", PATH, "        if self.phasepoints[-1].order[0] <= left:", "        if self.phasepoints[-1].order[-1] <= left:", "R-9.19", control=True, why="seeded C09_m"),
     B("c09-run-md-minus-interface-or-false", TIS, '                picked[ens_num]["ens"]["tis_set"]["lambda_minus_one"],', '                picked[ens_num]["ens"]["tis_set"]["lambda_minus_one"] or False,', "R-9.18", control=True, why="seeded C09_l"),
     K("c09-keep-extender-bounds-through-locals", TIS, '    interfaces = ens_set["interfaces"]\n    # ensemble[\'system\'] = source_seg.phasepoints[0].copy()\n', '    interfaces = ens_set["interfaces"]\n    left, right = interfaces[0], interfaces[-1]\n', also=[(TIS, '    if interfaces[0] <= sh_pt.order[0] < interfaces[-1]:', '    if left <= sh_pt.order[0] < right:', 2)]),
     B("c09-extender-bounds-local-from-cap", TIS, '    interfaces = ens_set["interfaces"]\n    # ensemble[\'system\'] = source_seg.phasepoints[0].copy()\n', '    interfaces = ens_set["interfaces"]\n    left, right = interfaces[0], ens_set["tis_set"].get("interface_cap", interfaces[-1])\n', "R-9.8", also=[(TIS, '    if interfaces[0] <= sh_pt.order[0] < interfaces[-1]:', '    if left <= sh_pt.order[0] < right:', 2)]),
